@@ -350,7 +350,19 @@ fn faults(cases: &str, out: &str, gate_ms: u64, reps: usize) {
             let (p, h) = run_one(pool, n, g, k, panic_at.clone(), (0, 0), gate_ms);
             runs += 1;
             if let Some(p) = p {
-                drop_pool(p);
+                // a benchmark goes on using its pool after a run whose callback panicked: the next, healthy run on the SAME
+                // pool must be a complete, ordinary run (every worker still there, nothing unwinds early)
+                if !healthy {
+                    log_line(&json!({"ev":"reset"}));
+                    let (p2, h2) = run_one(p, n, g, k, vec![], (0, 0), 0);
+                    runs += 1;
+                    hung += usize::from(h2);
+                    if let Some(p2) = p2 {
+                        drop_pool(p2);
+                    }
+                } else {
+                    drop_pool(p);
+                }
             }
             if h {
                 hung += 1;
